@@ -38,7 +38,10 @@ class StripLogging(ast.NodeTransformer):
 class Loader(importlib.machinery.SourceFileLoader):
     def source_to_code(self, data, path, *, _optimize=-1):
         tree = ast.parse(data, filename=path)
-        tree = StripLogging(os.path.basename(path)).visit(tree)
+        if os.environ.get("VERIF_KEEP_LOGGING") != "1":
+            # (obligations whose inputs are all fixed before the repository's code runs execute it natively and keep the
+            # logging statements: an exception raised while a log line is built is then part of what they see)
+            tree = StripLogging(os.path.basename(path)).visit(tree)
         ast.fix_missing_locations(tree)
         return compile(tree, path, "exec", dont_inherit=True, optimize=_optimize)
 
